@@ -20,6 +20,8 @@ Decides:
  N first names     ShortLong::try_from reads short[0]/long[0] of the vectors matches_arg searches.
  C cursor          render_console / Doc::first_line advance the payload cursor by the token length exactly once on every way
                    through the Text arm (also when the text is skipped): otherwise later names and help are cut at wrong offsets.
+ E embedders       Doc::doc / Doc::em_doc bracket whatever they splice in with an InlineBlock (the renderers end the "first paragraph
+                   only" skipping at that block's end: without it everything after a multi-paragraph group title vanishes from --help).
  O order           render_help writes descr, usage, header, item groups (parser meta then help/version meta), footer in
                    that order.
 Does not decide: de-duplication and grouping outcomes for particular shapes."""
@@ -28,12 +30,13 @@ from core import *
 from dataflow import *
 from cfgq import *
 from parsers import *
+from absint import Walker, UNKNOWN
 import walkers
 
 LEVEL = 'other'
 EXPLANATION = __doc__
 ASSUMPTIONS = ['third-party Parser impls describe themselves truthfully']
-FLOORS = {'S.eval-meta': 28, 'K.skip': 5, 'W.walkers': 75, 'D.dedup': 5, 'H.item-copy': 5, 'N.names': 2, 'O.order': 5, 'C.cursor': 2}
+FLOORS = {'S.eval-meta': 28, 'K.skip': 5, 'W.walkers': 75, 'D.dedup': 5, 'H.item-copy': 5, 'N.names': 2, 'O.order': 5, 'C.cursor': 2, 'E.embedders': 2}
 
 WALKERS = {
     'append_meta::go': ([r'append_meta::go$'], {}),
@@ -63,8 +66,74 @@ def run(ctx):
         ctx.guard(item_copy, ctx, cfg, fs)
         ctx.guard(names, ctx, cfg, fs)
         ctx.guard(order, ctx, cfg, fs)
+        ctx.guard(decor, ctx, cfg, fs)
+        ctx.guard(embedders, ctx, cfg, fs, 'E.embedders')
         import docwalk
         ctx.guard(docwalk.cursor_advance, ctx, cfg, fs, 'C.cursor', r'render_console$|Doc::first_line$')
+
+def decor(ctx, cfg, fs):
+    """a `[default: ..]` / decoration line is attached to the item it decorates: append_meta pushes HelpItem::DecorSuffix only
+    with the section type obtained from peek_front_ty of the DECORATED meta (so a hidden item - Skip, no type - gets no line
+    at all, and the line never lands under an unrelated neighbour)"""
+    b = ctx.look(fs.one(r'append_meta::go$'))
+    n = 0
+    for i, k, st in b.stmts():
+        if st['k'] == 'assign' and st['rv']['k'] == 'agg' and st['rv'].get('adt', '').endswith('HelpItem') and st['rv'].get('variant') == 'DecorSuffix':
+            names = st['rv'].get('field_names') or []
+            if 'ty' not in names: continue
+            n += 1
+            rs = provenance(b, st['rv']['fields'][names.index('ty')], i, k, through=[r'as std::ops::Try>::branch$'])
+            ok = bool(rs) and all(r.kind == 'call' and r.call.is_(r'peek_front_ty$') for r in rs)
+            recv = [q for r in rs if r.kind == 'call' for q in provenance(b, r.call.args[0], r.call.bb, 'term')]
+            ok &= bool(recv) and all(q.kind == 'param' and any(x.startswith('as Suffix') for x in q.path) for q in recv)
+            ctx.ob('K.skip', 'append_meta::go:DecorSuffix:type-of-decorated-item', ok,
+                   'append_meta pushes a decoration line with the section type %s of %s (must be peek_front_ty of the decorated meta itself)' % (
+                       sorted({short(r.call.name) if r.kind == 'call' else '%s:%s' % (r.kind, r.what) for r in rs}), sorted({'.'.join(q.path) for q in recv})), where=b.where(i), cfg=cfg)
+    if n == 0:
+        raise Broken('append_meta::go: no HelpItem::DecorSuffix construction found')
+
+def embedders(ctx, cfg, fs, rule):
+    """Doc::doc / Doc::em_doc splice another document into this one.  The renderers switch the "first paragraph only" skipping
+    off again at the END of the InlineBlock that encloses the text, so whatever is spliced in must be bracketed by
+    BlockStart(InlineBlock) .. BlockEnd(InlineBlock) on every path (or be handed whole to an embedder that does)."""
+    cands = [b for b in fs.bodies.values() if b.kind != 'closure' and re.search(r'^buffer::Doc::(doc|em_doc)$', b.path)]
+    if len(cands) < 2:
+        raise Broken('Doc::doc / Doc::em_doc not found')
+    for b in sorted(cands, key=lambda x: x.path):
+        ctx.look(b)
+        def cm(w, c, store):
+            return None
+        w = Walker(b, max_paths=400, max_visits=2)
+        rows = set()
+        for p_ in w.run():
+            if p_.end != 'return': continue
+            seq = []
+            for (blk, c), av in zip(p_.calls, p_.callvals):
+                if c.is_(r'Vec::<buffer::Token>::push$'):
+                    rs = provenance(b, c.args[1], c.bb, 'term', through=None)
+                    tag = '?'
+                    for r in rs:
+                        if r.kind == 'agg' and r.what in ('buffer::Token::BlockStart', 'buffer::Token::BlockEnd'):
+                            inner = provenance(b, r.extra['fields'][0], r.site[0], r.site[1], through=None)
+                            kinds = {q.what.split('::')[-1] for q in inner if q.kind == 'agg'} | {str(q.what) for q in inner if q.kind == 'const'}
+                            tag = '%s(%s)' % (r.what.split('::')[-1], '|'.join(sorted(map(str, kinds))) or '?')
+                        elif r.kind == 'const':
+                            tag = 'const token'
+                    seq.append(tag)
+                elif c.is_(r'Extend<.*>>::extend', r'Vec::<buffer::Token>::(extend_from_slice|append)$', r'String::push_str$', r'^buffer::Doc::(text|emphasis|literal|write_str|write_char)$'):
+                    seq.append('content')
+                elif c.is_(r'^buffer::Doc::(doc|em_doc)$'):
+                    seq.append('embedder')
+            core_ = [x for x in seq]
+            rows.add(tuple(core_))
+        def bracketed(seq):
+            if 'content' not in seq:
+                return True           # nothing spliced directly (delegated, or nothing to add)
+            first = seq.index('content'); last = len(seq) - 1 - seq[::-1].index('content')
+            return any(x.startswith('BlockStart(') and 'InlineBlock' in x for x in seq[:first]) and any(x.startswith('BlockEnd(') and 'InlineBlock' in x for x in seq[last + 1:])
+        bad = sorted(r for r in rows if not bracketed(list(r)))
+        ctx.ob(rule, '%s:spliced-content-inside-InlineBlock' % short(b.path), bool(rows) and not bad,
+               '%s: on each of its %d path shapes the spliced content lies between BlockStart(InlineBlock) and BlockEnd(InlineBlock): %s' % (short(b.path), len(rows), 'yes' if not bad else 'NOT on %s' % bad[:2]), where=b.where(), cfg=cfg)
 
 def self_fields_used(fs, body, callee_pats, argpos=0):
     """fields of `self` that reach the given argument position of calls matching the patterns (in the body or its closures)"""
